@@ -91,7 +91,15 @@ impl Cfg {
         self.apply(&mut b);
         b
     }
+    pub fn apply_flags_only(&self, b: &mut RegExpBuilder) {
+        let saved = (self.minrep, self.minlen);
+        let _ = saved;
+        self.apply_inner(b, false);
+    }
     pub fn apply(&self, b: &mut RegExpBuilder) {
+        self.apply_inner(b, true);
+    }
+    fn apply_inner(&self, b: &mut RegExpBuilder, thresholds: bool) {
         if self.has(D) {
             b.with_conversion_of_digits();
         }
@@ -134,8 +142,22 @@ impl Cfg {
         if self.has(C) {
             b.with_syntax_highlighting();
         }
-        b.with_minimum_repetitions(self.minrep);
-        b.with_minimum_substring_length(self.minlen);
+        if thresholds {
+            b.with_minimum_repetitions(self.minrep);
+            b.with_minimum_substring_length(self.minlen);
+        }
+    }
+    /// Same settings, but the two thresholds are set BEFORE the flags (setter order must not matter).
+    pub fn build_thresholds_first(&self, tcs: &[String]) -> Result<String, String> {
+        let c = *self;
+        std::panic::catch_unwind(move || {
+            let mut b = RegExpBuilder::from(tcs);
+            b.with_minimum_repetitions(c.minrep);
+            b.with_minimum_substring_length(c.minlen);
+            Cfg { minrep: c.minrep, minlen: c.minlen, ..c }.apply_flags_only(&mut b);
+            b.build()
+        })
+        .map_err(panic_msg)
     }
     /// The real `build()`, with unwinds caught.
     pub fn build(&self, tcs: &[String]) -> Result<String, String> {
